@@ -39,6 +39,17 @@ CLAIMED.update({
    text='The three containers are modelled with their redundant representations (list+set, links+table+length, qset+lookup index) and the real order of checks and updates; every public operation is a total function returning state and outcome (exception class). Proved for all operation sequences from empty: the invariant holds, abs(run ops) = Spec.run ops on a plain duplicate-free list, outcomes agree; a raising single-element operation leaves the state unchanged; the predicate store never holds two arities of one symbol and finds each member by any reference. The unfixed setitem operations provably break the invariant (witness by decide).',
    note=TB2 + 'Pointer surgery of linkseq is modelled at list level; its pointer-level consistency is seen by the correspondence (forward and reversed iteration after every op). The model mirrors the code with fixes cbd6d8a, 5e75039, c1ba8ab, 9115501.'),
 })
+CLAIMED.update({
+ 'C01': dict(level='proof', technique='Lean 4 proof: generic soundness theorem over every finite sequence of legal steps (no scheduler model), instantiated per logic from kernel-evaluated side conditions on regenerated rule/closure/trunk/frame data; whole-proof replay correspondence; bounded countermodel search only for replays',
+   text='C01_valid_sound_partial: for any logic data passing the decidable side checks, any tableau reachable from the trunk by ANY finite sequence of legal steps (operator, modal, closure, frame, identity, quit-flag steps) with all branches closed admits no countermodel in any structure of the logic (arbitrary worlds/domains, frame condition, documented tables). Since the derivation is arbitrary, every optimisation option, tie-break order, build/step loop and premise order is inside the quantifier. Instantiated for all 57 logics (Ptx.Gen.Obl.<L>.c01_valid_sound). Real runs are replayed step by step (each step must be a legal instance, final branches equal node for node), so the theorem applies to those runs; rules outside the sound part (Bochvar and FDE biconditional rules: known findings) exclude a run from the theorem and send it to the countermodel search.',
+   note=TB + ' The quantifier-rule layer of the generic proof (substitution lemma) is not finished: derivations containing quantifier-rule steps are covered by replay legality + bounded countermodel search only (theorem named _partial). Spec structures interpret classical Identity as real identity.'),
+ 'C06': dict(level='proof', technique='Lean 4 proof by induction over all histories of append/copy/tick on a forest of branches, freshness stated against an independent walk of the nodes on the branch; correspondence exhaustive to depth 5 + witness-rule sweep over all 57 logics',
+   text='BranchState mirrors Branch.append/copy/new_constant/new_world line by line. C06_fresh_all_histories: after any finite history, on every branch the offered constant occurs in no sentence on it and the offered world in no node on it (freshness stated against the nodes actually present, plus cached sets = walked sets); copies are independent. The legacy (pre-c02e76b) rule is proved not fresh. That every witness rule of every logic uses the offered item is checked on real runs (all 57 logics, constants/worlds out of order and non-initial), and — for legality — by the C01 replay (fresh-witness condition of every new-constant / new-world step).',
+   note=TB2 + 'The witness-rule clause is a correspondence/oracle check over real runs, not a theorem.'),
+ 'C17': dict(level='proof', technique='Lean 4 proof over a flag-word state machine (induction over all interleavings of public calls with abstract next()-outcome and clock inputs); correspondence on real tableaux with deterministic clock',
+   text='Lifecycle.lean mirrors step/finish/build/setters/_check_timeout/_is_max_steps_exceeded line by line; inputs are the public calls, each with the abstract outcome of next() and a clock reading. Proved for every reachable state / op sequence: premature => no verdict; history length <= positive step limit; a limit above the natural length changes nothing; exceeding the time limit raises and leaves the tableau finished; finished is absorbing; argument/logic/rules are frozen after start; no argument => no verdict.',
+   note=TB2 + 'The real wall clock and the chooser are outside the model: the theorem is about what the state machine does GIVEN a clock reading and next() outcome; the harness drives both deterministically on real tableaux.'),
+})
 PENDING = 'check not built yet in this round (planned: Lean 4 proof + correspondence, see DESIGN.md section 6)'
 NOT_APPLICABLE = {}
 
